@@ -24,6 +24,7 @@ type PodState struct {
 	Unsched   bool   `json:"unsched,omitempty"`   // not bound (affinity mode only)
 	AgeSec    int    `json:"ageSec,omitempty"`
 	Restarts  int32  `json:"restarts,omitempty"`
+	NoLastTerm bool  `json:"noLastTerm,omitempty"` // restart count without lastState.terminated
 	RestartAgoSec int `json:"restartAgoSec,omitempty"`
 	Waiting   string `json:"waiting,omitempty"`
 	SideRestarts      int32 `json:"sideRestarts,omitempty"`
@@ -80,6 +81,9 @@ func (s *Sim) finishInjected(p *corev1.Pod, nodeName string, ps PodState) {
 					ago = time.Minute
 				}
 				cs.LastTerminationState = corev1.ContainerState{Terminated: &corev1.ContainerStateTerminated{Reason: "Error", ExitCode: 1, FinishedAt: metav1.NewTime(now.Add(-ago))}}
+				if ps.NoLastTerm {
+					cs.LastTerminationState = corev1.ContainerState{}
+				}
 			}
 			out = append(out, cs)
 		}
